@@ -45,6 +45,12 @@ namespace detail
 		GLM_FUNC_QUALIFIER vec<4, T, Q> operator ()()  const { return vec<4, T, Q>(this->elem(E0), this->elem(E1), this->elem(E2), this->elem(E3)); }
 	};
 
+	// Aligned types without a dedicated SIMD implementation use the generic one
+	template<int N, typename T, qualifier Q, int E0, int E1, int E2, int E3>
+	struct _swizzle_base1<N, T, Q, E0, E1, E2, E3, true> : public _swizzle_base1<N, T, Q, E0, E1, E2, E3, false>
+	{
+	};
+
 	// Internal class for implementing swizzle operators
 	/*
 		Template parameters:
